@@ -87,9 +87,13 @@ Definition pick_of_r (prev next : mgr) (c : cmd) (res : oresult) : option N :=
   | _ => None
   end.
 
-(* spawned peers are observed only as new keys of the peer map *)
+(* spawned peer handlers are observed as new keys of the peer map and, by number, in the spawn log *)
 Definition no_peer_spawns (sp : list spawn) : list spawn :=
   filter (fun s => match s with SpPeer _ => false | _ => true end) sp.
+Definition peer_spawns (sp : list spawn) : N :=
+  len (filter (fun s => match s with SpPeer _ => true | _ => false end) sp).
+Definition spawns_agree (model observed : list spawn) : bool :=
+  list_eqb sp_eqb (no_peer_spawns model) (no_peer_spawns observed) && (peer_spawns model =? peer_spawns observed).
 
 Definition k_step (prev : mgr) (s : ostep) : bool :=
   let n := length (m_plens prev) in
@@ -100,7 +104,7 @@ Definition k_step (prev : mgr) (s : ostep) : bool :=
       match mstep prev c (pick_of_r prev (s_state s) c (s_res s)), s_res s with
       | Ok (m', r, bc, sp), XOk r' =>
           reply_eqb r r' && mgr_eqb m' (s_state s) && list_eqb bc_eqb bc (s_bc s)
-          && list_eqb sp_eqb (no_peer_spawns sp) (s_sp s)
+          && spawns_agree sp (s_sp s)
       | Err, XErr => mgr_eqb prev (s_state s)
       | Panic, XPanic => true
       | _, _ => false
@@ -112,7 +116,8 @@ Definition k_step (prev : mgr) (s : ostep) : bool :=
       | _, _ => false
       end
   | OTresp ps =>
-      let '(m', sp) := handle_tracker_resp prev (map (fun a => (a, [])) ps) in mgr_eqb m' (s_state s)
+      let '(m', sp) := handle_tracker_resp prev (map (fun a => (a, [])) ps) in
+      mgr_eqb m' (s_state s) && (peer_spawns sp =? peer_spawns (s_sp s))
   | OChoose _ _ | OSkip => mgr_eqb prev (s_state s)
   | OTick | OSet => true
   end.
@@ -146,6 +151,16 @@ Definition o13_step (prev : mgr) (s : ostep) : bool :=
   | _ => true
   end.
 
+(* the counting form of C12's invariant on the observed state: Reserved(n) => 1 <= n <= number of peers that are
+   assigned the piece and do not choke us *)
+Definition holders (m : mgr) (i : N) : N :=
+  len (filter (fun kp => negb (p_choked (snd kp)) && optN_eqb (p_piece_index (snd kp)) (Some i)) (m_peers m)).
+Definition inv_count (m : mgr) : bool :=
+  forallb (fun i => match nth_error (m_status m) i with
+                    | Some (Reserved n) => (1 <=? n) && (n <=? holders m (N.of_nat i))
+                    | _ => true
+                    end) (indices m).
+
 (* C12 *)
 Definition reserved_backed (m : mgr) (rx : list (addr * option N)) : bool :=
   forallb (fun i => match nth_error (m_status m) i with
@@ -176,7 +191,7 @@ Definition o12_step (prev : mgr) (prev_rx : list (addr * option N)) (s : ostep) 
   | _ => match s_res s with
          | XPanic | XErr => false
          | _ => reserved_backed (s_state s) (s_rx s) && have_absorbing prev (s_state s)
-                && asked_ok prev_rx (s_state s) (s_rx s)
+                && asked_ok prev_rx (s_state s) (s_rx s) && inv_count (s_state s)
          end
   end.
 
@@ -256,6 +271,44 @@ Definition o01_step (prev : mgr) (s : ostep) : bool :=
        | XPanic => false
        | _ => true
        end
+    (* one connection task per address (what ties a task's reports to the manager's entry for it): a tracker answer
+       opens at most one connection per listed address that is not connected yet *)
+    && match s_op s with
+       | OTresp ps => peer_spawns (s_sp s) <=? len (nodup N.eq_dec (filter (fun a => negb (is_some (pget (m_peers prev) a))) ps))
+       | _ => true
+       end
+  end.
+
+(* C11, manager side: a piece is announced to the established connections exactly when it becomes owned or is
+   completed again -- never otherwise, and never is a newly owned piece left unannounced *)
+Definition o11m_step (prev : mgr) (s : ostep) : bool :=
+  match s_op s with
+  | OSet => true
+  | _ =>
+    let next := s_state s in
+    forallb (fun i => match nth_error (m_status prev) i, nth_error (m_status next) i with
+                      | Some st, Some st' =>
+                          negb (is_have st' && negb (is_have st))
+                          || existsb (fun b => match b with BHave j => j =? N.of_nat i | _ => false end) (s_bc s)
+                      | _, _ => true
+                      end) (indices prev)
+    && forallb (fun b => match b with
+                         | BHave i => match nthN (m_status next) i with Some st => is_have st | None => false end
+                         | _ => true
+                         end) (s_bc s)
+    && match s_res s with
+       | XOk (RBitfield bits) => list_eqb Bool.eqb bits (map is_have (m_status prev))
+       | _ => true
+       end
+  end.
+
+(* C20, manager side: when a connection is gone (KillReq) its peer state is forgotten and no reservation outlives
+   its holders *)
+Definition o20m_step (prev : mgr) (s : ostep) : bool :=
+  match s_op s, s_res s with
+  | OSet, _ => true
+  | _, XPanic => false
+  | _, _ => inv_count (s_state s)
   end.
 
 (* ---- the run -------------------------------------------------------------------------------- *)
@@ -269,12 +322,65 @@ Fixpoint run (which : N) (prod : bool) (prev : mgr) (prev_rx : list (addr * opti
                       else if which =? 13 then o13_step prev s
                       else if which =? 9 then o09_step prev s
                       else if which =? 1 then o01_step prev s
+                      else if which =? 11 then o11m_step prev s
+                      else if which =? 20 then (negb prod || o20m_step prev s)
                       else o14_step prev s) in
       match s_res s with
       | XPanic => (k', o')
       | _ => run which prod (s_state s) (s_rx s) rest k' o'
       end
   end.
+
+(* C02, manager side: the manager's record of who chokes us is each peer's last word (Choke / Unchoke frames, a new
+   connection starts choked), and an idle peer that does not choke us and announces a piece we miss is asked for it at
+   once -- otherwise that piece would wait for an Unchoke that never comes *)
+Definition tc_get (tc : list (addr * bool)) (a : addr) : bool :=
+  match find (fun kv => fst kv =? a) tc with Some kv => snd kv | None => true end.
+Definition tc_put (tc : list (addr * bool)) (a : addr) (b : bool) : list (addr * bool) :=
+  (a, b) :: filter (fun kv => negb (fst kv =? a)) tc.
+Definition o02m_step (prev : mgr) (tc : list (addr * bool)) (s : ostep) : bool :=
+  match s_op s with
+  | OSet => true
+  | _ =>
+    forallb (fun kp => Bool.eqb (p_choked (snd kp)) (tc_get tc (fst kp))) (m_peers (s_state s))
+    && match s_op s, s_res s with
+       | OCmd (CHave a i), XOk r =>
+           match pget (m_peers prev) a, nthN (m_status prev) i with
+           | Some p, Some st =>
+               negb (is_missing st && negb (tc_get tc a) && negb (is_some (p_piece_index p)) && negb (p_am_interested p))
+               || match r with RHave_IntReq j _ => j =? i | _ => false end
+           | _, _ => true
+           end
+       | _, XPanic => false
+       | _, _ => true
+       end
+  end.
+Fixpoint run02 (prev : mgr) (tc : list (addr * bool)) (steps : list ostep) (k o : bool) : bool * bool :=
+  match steps with
+  | [] => (k, o)
+  | s :: rest =>
+      let k' := k && k_step prev s in
+      let tc' := match s_op s with
+                 | OCmd (CChoke a) => tc_put tc a true
+                 | OCmd (CUnchoke a) => tc_put tc a false
+                 | OCmd (CKill a) => tc_put tc a true
+                 | OAdd a _ => tc_put tc a true
+                 | OSet => map (fun kp => (fst kp, p_choked (snd kp))) (m_peers (s_state s))
+                 | _ => tc
+                 end in
+      let o' := o && o02m_step prev tc' s in
+      match s_res s with
+      | XPanic => (k', o')
+      | _ => run02 (s_state s) tc' rest k' o'
+      end
+  end.
+Definition code02m (c : case) : N :=
+  match c with
+  | CMgr prod init steps =>
+      let '(k, o) := run02 init (map (fun kp => (fst kp, p_choked (snd kp))) (m_peers init)) steps true true in
+      (if k then 0 else 1) + (if o then 0 else 2)
+  end.
+Definition codes02m (cs : list case) : list N := map code02m cs.
 
 Definition code (which : N) (c : case) : N :=
   match c with
@@ -287,3 +393,5 @@ Definition codes13 (cs : list case) : list N := map (code 13) cs.
 Definition codes14 (cs : list case) : list N := map (code 14) cs.
 Definition codes09m (cs : list case) : list N := map (code 9) cs.
 Definition codes01m (cs : list case) : list N := map (code 1) cs.
+Definition codes11m (cs : list case) : list N := map (code 11) cs.
+Definition codes20m (cs : list case) : list N := map (code 20) cs.
